@@ -604,7 +604,16 @@ theorem ubucket_ok (d : Nat) (u : GoMap) (hent : ∀ e ∈ u, EOK (d + 1) e)
     intro w hw
     obtain ⟨e, he, rfl⟩ := List.mem_map.mp hw
     exact ⟨valWire_inLimits _ _ _, (hent e (hmem e he)).2.2.2.1 t⟩
-  refine ⟨?_, hwf, hlim, ?_, ?_⟩
+  have hnt : (umapWire u).hasTag = false := by
+    simp only [umapWire, Wire.hasTag]
+    rw [hasTagPairs_iff]
+    intro w hw
+    obtain ⟨e, he, rfl⟩ := List.mem_map.mp hw
+    exact ⟨valWire_noTag _, (hent e (hmem e he)).2.2.2.2.1⟩
+  have hscan : headerLabelsUntagged (umapWire u).bytes = true :=
+    ensureUntagged_bytes_noTag _ hwf (hlim true) hnt
+  unfold umapWire at hscan
+  refine ⟨?_, hwf, hlim, hnt, ?_⟩
   · cases u with
     | nil =>
       simp only [encodeBucket, Bool.false_eq_true, if_false, umapWire_nil_bytes]
@@ -615,12 +624,8 @@ theorem ubucket_ok (d : Nat) (u : GoMap) (hent : ∀ e ∈ u, EOK (d + 1) e)
       rw [umapWire_bytes] at hw
       simp only [encodeBucket, hv', Bool.not_true, Bool.false_eq_true, if_false, hep,
         umapWire_bytes, hw, if_true]
-  · simp only [umapWire, Wire.hasTag]
-    rw [hasTagPairs_iff]
-    intro w hw
-    obtain ⟨e, he, rfl⟩ := List.mem_map.mp hw
-    exact ⟨valWire_noTag _, (hent e (hmem e he)).2.2.2.2.1⟩
-  · simp only [umapWire, decUnprot, hlab, hdec, hvn, if_true]
+  · simp only [umapWire, decUnprot, hlab, hscan, hdec, hvn, if_true, Bool.not_true,
+      Bool.false_eq_true, if_false]
 
 /-- the entries of a validated `HMap`, given the induction hypothesis for its countersignature
     values -/
@@ -1455,7 +1460,10 @@ theorem unprotected_bucket_roundtrip_csig_needs_label :
   · simp [Unprotected.unmarshal, parseTop, parseItem, parsePairs, parseItems, fuelFor, parseHead,
       maxNested, maxElems, Wire.hasTag, Wire.hasTagPairs, Wire.hasTagList, decUnprot, labelsOK,
       maxInt64, GoVal.keyEq, decUnprotPairs, decodeAny, decodeList, decodePairs, isCsigLabel,
-      normalizeLabel, wrap64, validateHeaderParameters, validateLoop, checkParam, lbl]
+      normalizeLabel, wrap64, validateHeaderParameters, validateLoop, checkParam, lbl,
+      Wire.stripSelfDescribed,
+      (by decide : headerLabelsUntagged (Wire.map .imm [(.uint .w1 99,
+        .arr .imm [.bstr .imm [0xa1, 0x01, 0x27], .map .imm [], .bstr .imm [3]])]).bytes = true)]
 
 end CsigExamples
 
